@@ -77,8 +77,8 @@ func VerifH_C09_update() {
 
 	n := vpRange("initialBlocks", vpParam("minblocks", 2), vpParam("maxblocks", 3))
 	grow := vpRange("growAfterUpdate", 0, 1)
-	spendA := vpRange("spendAAt", 0, n+grow) // 0 = never
-	spendB := vpRange("spendBAt", 0, n+grow)
+	spendA := vpRange("spendAAt", 0, n+1) // 0 = never; n+1: in the block that may be added later
+	spendB := vpRange("spendBAt", 0, n+1)
 	salt := uint32(1)
 	mk := func() {
 		h := len(c.best)
@@ -135,8 +135,17 @@ func VerifH_C09_update() {
 	}
 	// the update is sent at the k-th chain-source call of the rescan (0: once it waits for notifications)
 	c.pending = []func(){send}
-	c.fireAt = vpRange("updateAtCall", 0, vpParam("maxcall", 6))
+	// ... or while the rescan still waits for the backend to become current
+	// (the next block notification ends that wait)
+	initialWait := vpParam("initialwait", 1) == 1 && vpRange("updateDuringTheInitialWait", 0, 1) == 1
+	if initialWait {
+		c.notCurrent = true
+		grow = 1
+	} else {
+		c.fireAt = vpRange("updateAtCall", 0, vpParam("maxcall", 6))
+	}
 	c.filterFailures = vpRange("filterFailures", 0, vpParam("failures", 1))
+	injected := c.filterFailures
 
 	opts := []RescanOption{
 		StartBlock(&headerfs.BlockStamp{Height: 0, Hash: gh}),
@@ -173,6 +182,11 @@ func VerifH_C09_update() {
 		vpQuiesce()
 	}
 	if grow == 1 {
+		if initialWait {
+			vpAssert(received, "update-is-taken-while-the-rescan-waits-for-the-backend")
+			vpReach("update-during-the-initial-wait")
+			c.notCurrent = false
+		}
 		mk()
 		vpReach("chain-grew-after-the-update")
 		vpQuiesce()
@@ -186,7 +200,9 @@ func VerifH_C09_update() {
 		if rerr != nil {
 			vpNote("err: " + rerr.Error())
 		}
-		vpAssert(false, "rescan-survives-an-update")
+		// a filter fetch that fails during the catch-up walk ends the rescan
+		// with that error (as in the walk harness); anything else is a fault
+		vpAssert(injected > 0, "rescan-survives-an-update")
 		return
 	}
 	if !received {
